@@ -258,7 +258,9 @@ F1(prim, sh, ax, n, sarg, axes, norm, k) == Cfg(prim, "func", sh, <<>>, axes, 0,
 \* form "kw": the 1-D transforms called as fft(x, n=.., axis=.., norm=..) - autograd's own argument parser names the length parameter differently
 F1kw(prim, sh, ax, n, norm, k) == Cfg(prim, "kw", sh, <<>>, <<>>, 0, ax, FALSE, n, 0, <<>>, norm, k, "array", NA)
 FNorms == {"none", "ortho", "forward", "backward"}
-FShapes == {<<4>>, <<3>>, <<2, 4>>, <<4, 2>>, <<6, 1>>} \cup (IF MaxRank >= 3 THEN {<<4, 2, 4>>} ELSE {})
+\* (<<4, 6>> along axis 1 and <<6, 4>> along axis 0 give real transforms with identical result shapes and lengths: anything keyed on shapes
+\*  alone confuses them)
+FShapes == {<<4>>, <<3>>, <<2, 4>>, <<4, 2>>, <<6, 1>>, <<4, 6>>, <<6, 4>>} \cup (IF MaxRank >= 3 THEN {<<4, 2, 4>>} ELSE {})
 FftFamily(z) ==
   UNION {
     {F1(p, sh, AxInt(a), n, <<>>, <<>>, nm, k) : p \in {"fft", "ifft"}, a \in AxisInts(Len(sh)), n \in {0, 2, 4, 6}, nm \in FNorms, k \in Kinds \cap {"rr", "cc"}}
